@@ -75,7 +75,26 @@ def constructor_class_direct(fx, path):
         return 'unchecked-decoder'
     if tr == 'bls12_381::osswu_map::OSSWUMap' and nm == 'osswu_map':
         return 'sswu-output'
+    if in_line_precomputation(fx, path):
+        return 'line-precomputation-scratch'
     return None
+
+
+def in_line_precomputation(fx, path):
+    """The running point of G2Prepared::from_affine and of the functions nested in it: points built there cannot escape,
+    because what the constructor returns (G2Prepared) has no point-typed field (checked on the type)"""
+    fa = roles.roles(fx).get('g2prepared_from_affine')
+    if not fa or not (path == fa or path.startswith(fa + '::')):
+        return False
+    rty = (fx.body(fa).local_ty(0) if fx.body(fa) is not None else '') or ''
+    a = fx.adts.get(rty)
+    if a is None:
+        return False
+    for v in a['variants']:
+        for f in v['fields']:
+            if any(pt in f['ty'] for pt in POINT_TYPES):
+                return False
+    return True
 
 
 def rule_who_constructs(fx, rep):
@@ -137,7 +156,7 @@ def rule_who_constructs(fx, rep):
     allowed_traits = ('CurveProjective', 'CurveAffine')
     for p, tys in sorted(writers.items()):
         f = fx.fn(p)
-        ok = (f.get('impl_trait') in allowed_traits) or owner_class(fx, p) == 'group-law' or ('batch_normalization::{closure' in p) or ('::from_affine::doubling_step' in p) or ('::from_affine::addition_step' in p) \
+        ok = (f.get('impl_trait') in allowed_traits) or owner_class(fx, p) == 'group-law' or ('batch_normalization::{closure' in p) or in_line_precomputation(fx, p) \
             or constructor_class(fx, p) is not None or (f.get('impl_trait') in ('std::convert::From', 'zeroize::Zeroize', 'std::clone::Clone', 'std::default::Default'))
         rep.check(ok, 'WIRE', 'writes-coordinates:%s' % p, 'coordinate writes confined to the group-law implementation',
                   'writes coordinates of a %s outside the group-law implementation' % sorted(tys), f['span'], construct=p)
